@@ -362,6 +362,8 @@ class Builder:
             if all(a is None for _, _, a in spec[2]):
                 return ex._bioLogLogitFullChoiceSet(util, B(spec[1]))
             av = {alt: B(a) for alt, u, a in spec[2]}
+            if len(spec) > 3:  # availability dictionary listed in another key order
+                av = {alt: av[alt] for alt in spec[3]}
             return ex._bioLogLogit(util, av, B(spec[1]))
         if kind == 'MonteCarlo':
             return ex.MonteCarlo(B(spec[1]))
